@@ -145,27 +145,27 @@ EXTRA = {
         "name inside link lists, are generated.",
  "C04": " Owner handles warmed by index / id / name lookups before a delete must not yield the deleted entity afterwards.",
  "C05": " extend([acceptable..., unacceptable]) must link nothing; re-pointing a slot or list from an entity to its "
-        "id-preserving copy must denote the copy; handles kept since before a mutation are access paths too.",
- "C06": " Windows that begin before the array are read and written element by element: refused or the NumPy reading.",
+        "id-preserving copy must denote the copy; handles kept since before a mutation are access paths too. Stale handles of deleted sources must be refused by every sources list; a feature retargeted frame -> array denotes the array.",
+ "C06": " Windows that begin before the array are read and written element by element: refused or the NumPy reading. The extent is changed through another handle while a long-lived handle stays in use.",
  "C07": " Geometry is written through a fresh descriptor handle and queried through a long-lived one.",
  "C08": " Exactness is decided per boundary and a start that is bit-identical to a reported sample coordinate is pinned "
-        "to that sample; repeated tick values and calibrated positions / extents arrays are generated.",
- "C11": " Existing files that are not HDF5 at all (text, bytes, truncated NIX files) must be refused with bytes unchanged.",
+        "to that sample; repeated tick values and calibrated positions / extents arrays are generated. The same tag object is asked again after the unit of an addressed axis changed.",
+ "C11": " Existing files that are not HDF5 at all (text, bytes, truncated NIX files) must be refused with bytes unchanged. A read-only session that follows a refused read-write open in the same process is still read-only.",
  "C12": " The catalogue includes refusals that depend on prior state (derived names taken, linked descriptors, a kept "
         "handle after delete_dimensions, later-item faults).",
  "C13": " After the first round of queries the tree is mutated (unlink, relink, add, delete, id-keeping copy) and "
         "everything is asked again in the same session.",
  "C14": " Validation is repeated before every injection in the same session (no state may survive a validation); linked "
         "tick vectors are resized.",
- "C16": " Frame handles are single, fresh or two-in-turn; calls whose later row is unacceptable must apply nothing.",
+ "C16": " Frame handles are single, fresh or two-in-turn; calls whose later row is unacceptable must apply nothing. Record arrays whose field order differs from their byte order, and index lists that are not strictly increasing (refused, or applied in order).",
  "C17": " The writer runs under an advancing clock; generated flush intervals hold one kind of op only; for part of the "
         "crash points the expected state comes from a second, normally closing writer while the killed one never reads "
-        "its file back.",
- "C18": " Units in spellings this library would not write (micro signs, blanks) must read unchanged after the upgrade.",
+        "its file back. Paths that already hold a file are overwritten; every writer starts in a clean directory.",
+ "C18": " Units in spellings this library would not write (micro signs, blanks) must read unchanged after the upgrade. Nearly equal per-value extras; the interrupting fault is an error, a kill or an OSError.",
  "C19": " Handles retained since creation / reopen must report the stored timestamps after every op; forced times "
-        "(second 0, ahead of the clock) are followed by descriptive changes.",
+        "(second 0, ahead of the clock) are followed by descriptive changes. Change - force - change within one clock second through retained handles.",
  "C20": " Link targets are compared by an id-free content digest; sources are also taken through link lists and role "
-        "links; section links inside the copied tree are generated.",
+        "links; section links inside the copied tree are generated. Sources that already hold an id-keeping duplicate; mutations through the links of either side.",
 }
 PENDING = {}
 LEVELS = {"C12": "fault_enumeration", "C18": "fault_enumeration", "C17": "fault_enumeration"}
